@@ -71,16 +71,17 @@ Section Calls.
       exists w1 w2 evR,
         run nopw t (raw_lock fuel m (alg_of am s)) w = (ODone VUnit, w1) /\
         eff w w1 (acq_all t m (kleaves s) (w_raw w)) /\
+        run nopw t (closure m (gitems s) body) w1 = ((if existsb is_cpanic body then OPanic else ODone VUnit), w2) /\
         frame (emit w1 (EMark t 1)) w2 /\ w_trace w' = evR ++ w_trace w2 /\ Forall tail_ev evR.
   Proof.
     intros Q Hf Can. pose proof (raw_lock_all_or_wait fuel w Q Hf) as L. rewrite Can in L.
     destruct L as [w1 [R1 E1]].
-    destruct (run_scoped_rest_quiet t m am s lent body Ha ND _ w VUnit w1 (w_raw w) Q R1) as [w' [R [E [K1 [K2 [w2 [evR [F [T Ft]]]]]]]]].
+    destruct (run_scoped_rest_quiet t m am s lent body Ha ND _ w VUnit w1 (w_raw w) Q R1) as [w' [R [E [K1 [K2 [w2 [evR [Rc [F [T Ft]]]]]]]]]].
     - apply eff_effp. exact E1.
     - apply (eff_keyf _ _ _ E1).
     - exact Can.
     - exists w'. split; [exact R|]. split; [exact E|]. split; [exact K1|]. split; [exact K2|].
-      exists w1, w2, evR. auto.
+      exists w1, w2, evR. repeat (split; [assumption|]). assumption.
   Qed.
 End Calls.
 
